@@ -15,7 +15,7 @@ def is_memoised(fnode) -> bool:
     for d in getattr(fnode, "decorator_list", []):
         tgt = d.func if isinstance(d, ast.Call) else d
         name = ast.unparse(tgt).split(".")[-1]
-        if name in ("lru_cache", "cache", "cached", "memoize", "memoise"):
+        if name in ("lru_cache", "cache", "cached", "memoize", "memoise", "cached_property"):
             return True
     return False
 
